@@ -159,7 +159,7 @@ static void check_altered(const unsigned idx[16], int li, unsigned coin, struct 
     polyseed_data *d = NULL; const polyseed_lang *lo = NULL;
     int es = polyseed_decode_explicit(ph, coin, polyseed_get_lang(li), &d); if (es == POLYSEED_OK) polyseed_free(d);
     d = NULL;
-    int as = polyseed_decode(ph, coin, &lo, &d); if (as == POLYSEED_OK) polyseed_free(d);
+    int as = polyseed_decode(ph, coin, (x & 2) ? NULL : &lo, &d); if (as == POLYSEED_OK) polyseed_free(d);
     r->cases++; r->calls += 2;
     r->digest ^= mix64(x, es * 16 + as);
     char key[100];
